@@ -405,6 +405,10 @@ class FakeKernel:
                 self.fault_counts.get('kern.err.' + ERRNO_NAMES.get(inj, str(inj)), 0) + 1
         elif err == 0:
             self._apply(rec)
+        elif err == ESRCH and rec.get('decoded') and rec['decoded'].get('kind') == 'delsa':
+            # deleting an SA the kernel itself already removed (hard expiry): the ledger counts it as deleted
+            sid = rec['decoded']['id']
+            self.ledger.append(('del', (sid['daddr_raw'], sid['proto'], sid['spi']), self.world.now, rec['no']))
         reply = enc_ack(-rec['errno'], msg)
         style = self.reply_style.get(rec['no'])
         if style == 'padded' and rec['errno'] == 0:
